@@ -162,6 +162,11 @@ func (c *Ctx) ruleAlloc(rule string, limit int64, dirs ...string) {
 					switch calleeName(&x.Call) {
 					case "reflect.MakeSlice":
 						check(in, x.Call.Args[1], "reflect.MakeSlice")
+						if len(x.Call.Args) > 2 && x.Call.Args[2] != x.Call.Args[1] {
+							check(in, x.Call.Args[2], "reflect.MakeSlice-cap")
+						}
+					case "reflect.MakeMapWithSize":
+						check(in, x.Call.Args[1], "reflect.MakeMapWithSize")
 					case "(*bytes.Buffer).Grow":
 						check(in, x.Call.Args[1], "Buffer.Grow")
 					}
